@@ -13,8 +13,11 @@ Op vocabulary (positional arguments first, `o=<slot>` selects the array, default
 
 focus: None (C01 core ops only), "iter", "derived", "sort", "reject", "growth", "fault", "all".
 No `fail=` is ever generated (the runner adds refusals).
+About a third of the histories of every focus run in sparse observation mode (`obs=sparse` on the
+constructor line, `observe` every 5-15 operations and before the final destroy; CONVENTIONS addendum 2).
 The generator keeps ideal Python lists only to choose mostly-valid arguments; it is not an oracle."""
 import itertools
+import random
 
 SIZE_MAX = 2 ** 64 - 1
 FACTORS = ["0.5", "1", "1.1", "1.5", "2", "3"]
@@ -30,11 +33,41 @@ def pick_value(rng):
     return rng.randint(1, 99)
 
 
+
+def sparsify(rng, hist):
+    """CONVENTIONS addendum 2: a sparse-observation session — `obs=sparse` on the constructor line, the obs
+    section of every op then carries only status / out-values / callback log, and the content is swept only
+    by `observe` (every 5-15 operations and once before the final destroy)."""
+    if not hist or not hist[0].startswith("new"):
+        return hist
+    out = [hist[0] + " obs=sparse"]
+    gap = rng.randint(5, 15)
+    body = hist[1:-1] if hist[-1].startswith("destroy") else hist[1:]
+    for op in body:
+        out.append(op)
+        gap -= 1
+        if gap <= 0:
+            out.append("observe")
+            gap = rng.randint(5, 15)
+    if hist[-1].startswith("destroy"):
+        out += ["observe", hist[-1]]
+    return out
+
+
+def sparse_third(hists, seed):
+    """every third history (deterministically for small-scope lists) runs in sparse mode"""
+    r = random.Random(seed)
+    return [sparsify(r, h) if i % 3 == 1 else h for i, h in enumerate(hists)]
+
+
 class ArrayGen:
     name = "array"
 
     # ------------------------------------------------------------------ small scope
     def small_scope(self, tier, focus=None):
+        return sparse_third(self._small_scope(tier, focus), 12345)
+
+    def _small_scope(self, tier, focus=None):
         out = []
         core = ["add 1", "add 2", "add 0", "add 1", "add_at 3 0", "add_at 4 1", "remove_at 0", "remove_last",
                 "remove 1", "reverse", "filter_mut", "trim_capacity", "replace_at 5 0", "swap_at 0 1", "remove_all"]
@@ -146,7 +179,8 @@ class ArrayGen:
 
     # ------------------------------------------------------------------ random
     def random(self, rng, n, tier, focus=None):
-        return [self._one(rng, focus) for _ in range(n)]
+        hs = [self._one(rng, focus) for _ in range(n)]
+        return [sparsify(rng, h) if rng.random() < 0.34 else h for h in hs]
 
     def _one(self, rng, focus):
         cap = rng.randint(1, 9)
@@ -410,6 +444,9 @@ class ArrayGen:
         return ops
 
     def fault_seeds(self, tier):
+        return sparse_third(self._fault_seeds(tier), 777)
+
+    def _fault_seeds(self, tier):
         return [["new cap=1 exp=2", "add 1", "add 2", "add_at 3 0", "add_at 4 1", "trim_capacity", "remove_last", "trim_capacity",
                  "mk_sub 0 1 to=1", "add 5 o=1", "mk_copy_shallow to=2", "mk_copy_deep to=3", "drop o=1", "mk_filter to=1",
                  "it_new", "it_next", "it_add 6", "it_next", "it_next", "it_add 7", "destroy"],
